@@ -88,6 +88,7 @@ func backupEngine() {
 			rp := map[string]any{"options": o.String(), "opts": o, "ops": opLines(done), "reader_age_commits": age, "commits_during_copy": during, "mode": mode}
 			copyPath := filepath.Join(dir, "copy.db")
 			_ = os.Remove(copyPath)
+			inFlight("backup", rp)
 			rep.Evaluations++
 			if age+during > 0 {
 				rep.Distinct++
@@ -136,11 +137,119 @@ func backupEngine() {
 			if dec, okd := leanDecode(copyPath); !okd || leanVerdictBad(dec) || dec[1] != "dump:"+want {
 				rep.violation("C14", "monitor", "backup-accounting", fmt.Sprintf("independent reader on the copy: %v", dec[min(len(dec)-1, 1):]), rp)
 			}
+			// a backup is a whole database file: BOTH meta pages must be valid version-2 metas
+			// (else the copy has lost its tolerance to one damaged meta page, C11)
+			if dec, okd := leanDecode(copyPath); okd && len(dec) > 7 && dec[7] != "metas m0=true m1=true" {
+				rep.violation("C14", "monitor", "backup-meta-invalid", fmt.Sprintf("%s: the copy's meta pages validated by the independent reader: %s", mode, dec[7]), rp)
+			}
 			if hi < 1 && round < 2 {
 				rep.sample(map[string]any{"mode": mode, "reader_age_commits": age, "commits_during_copy": during, "bytes": n, "size": size})
 			}
 		}
 		e.CloseAll()
 	}
+	// (2) a backup taken through a read transaction that was open across a FAILED commit
+	// (ErrMaxSizeReached) and later commits must still be the reader's snapshot
+	nfc := 4
+	if *flagTier == "thorough" {
+		nfc = 60
+	}
+	for k := 0; k < nfc; k++ {
+		seed := *flagSeed*15485863 + int64(k)
+		o := fcOpts{PageSize: []int{1024, 4096}[k%2], NoFreelistSync: k%4 >= 2, Freelist: []bolt.FreelistType{bolt.FreelistArrayType, bolt.FreelistMapType}[(k/2)%2], Backup: []string{"WriteTo", "CopyFile"}[k%2]}
+		rp := map[string]any{"scenario": "backup through a reader open across a failed commit", "seed": seed, "opts": o.String()}
+		inFlight("backup", rp)
+		r := runFailedCommitScenario(filepath.Join(dir, "fcb.db"), seed, o)
+		rep.Evaluations++
+		rep.count("backup-across-failed-commit")
+		if os.Getenv("VERIF_DEBUG") != "" {
+			fmt.Fprintf(os.Stderr, "fc %s: %+v\n", o, r)
+		}
+		if strings.HasPrefix(r.Err, "panic") {
+			rep.violation("C14", "monitor", "backup-fails", fmt.Sprintf("%s through a reader open across a failed commit and later commits: %s (the reader itself: %q) [%s]", o.Backup, truncate(r.Err, 160), truncate(r.ReaderDiff, 120), o), rp)
+		} else if r.Err != "" {
+			rep.Notes = append(rep.Notes, "failed-commit scenario did not run as planned: "+truncate(r.Err, 100))
+		}
+		if r.BackupErr != "" {
+			rep.violation("C14", "monitor", "backup-fails", fmt.Sprintf("%s through a reader open across a failed commit: %s [%s]", o.Backup, r.BackupErr, o), rp)
+		}
+		if r.BackupDiff != "" {
+			rep.violation("C14", "monitor", "backup-content", fmt.Sprintf("%s through a reader open across a failed commit and later commits: %s [%s]", o.Backup, r.BackupDiff, o), rp)
+		}
+	}
+	// (3) Tx.WriteFlag set (WriteTo then re-opens db.Path()) while the path has been replaced by
+	// another database file: the backup must still be the transaction's snapshot
+	for k := 0; k < 2; k++ {
+		p := filepath.Join(dir, "wf.db")
+		p2 := filepath.Join(dir, "wf-other.db")
+		_ = os.Remove(p)
+		_ = os.Remove(p2)
+		ps := []int{1024, 4096}[k%2]
+		rp := map[string]any{"scenario": "WriteTo with WriteFlag after the path was replaced by rename", "page_size": ps}
+		inFlight("backup", rp)
+		mk := func(path string, tag string, n int) *bolt.DB {
+			db, err := bolt.Open(path, 0o600, &bolt.Options{PageSize: ps, Timeout: time.Second})
+			if err != nil {
+				return nil
+			}
+			for c := 0; c < 3; c++ {
+				_ = db.Update(func(tx *bolt.Tx) error {
+					b, _ := tx.CreateBucketIfNotExists([]byte(tag))
+					for i := 0; i < n; i++ {
+						_ = b.Put([]byte(fmt.Sprintf("%s-%04d", tag, i)), []byte(strings.Repeat(tag, 20+c+i%50)))
+					}
+					return nil
+				})
+			}
+			return db
+		}
+		db := mk(p, "first", 150)
+		other := mk(p2, "other", 400)
+		if db == nil || other == nil {
+			continue
+		}
+		_ = other.Close()
+		rtx, err := db.Begin(false)
+		if err != nil {
+			_ = db.Close()
+			continue
+		}
+		snap := dumpTx(rtx)
+		_ = os.Rename(p2, p)
+		rtx.WriteFlag = os.O_SYNC
+		var buf bytes.Buffer
+		_, werr := rtx.WriteTo(&buf)
+		_ = rtx.Rollback()
+		_ = db.Close()
+		rep.Evaluations++
+		rep.count("backup-writeflag-path-replaced")
+		cp := filepath.Join(dir, "wf-copy.db")
+		if werr != nil {
+			rep.violation("C14", "monitor", "backup-fails", fmt.Sprintf("WriteTo with WriteFlag after the path was replaced: %v", werr), rp)
+			continue
+		}
+		_ = os.WriteFile(cp, buf.Bytes(), 0o600)
+		func() {
+			defer func() {
+				if r := recover(); r != nil {
+					rep.violation("C14", "monitor", "backup-unopenable", fmt.Sprintf("WriteTo with WriteFlag after the path was replaced by another database: the copy cannot be read: panic: %v", r), rp)
+				}
+			}()
+			cdb, err := bolt.Open(cp, 0o600, &bolt.Options{ReadOnly: true, Timeout: time.Second})
+			if err != nil {
+				rep.violation("C14", "monitor", "backup-unopenable", fmt.Sprintf("WriteTo with WriteFlag after the path was replaced by another database: the copy does not open: %v", err), rp)
+				return
+			}
+			got := dumpDB(cdb)
+			bad := checkDB(cdb)
+			_ = cdb.Close()
+			if got != snap {
+				rep.violation("C14", "monitor", "backup-content", fmt.Sprintf("WriteTo with WriteFlag after the path was replaced by another database: the copy holds %s, the transaction's snapshot was %s", hashStr(got), hashStr(snap)), rp)
+			} else if bad != "" {
+				rep.violation("C14", "monitor", "backup-fails-check", "WriteTo with WriteFlag after the path was replaced: Tx.Check on the copy: "+truncate(bad, 160), rp)
+			}
+		}()
+	}
+	inFlight("backup", nil)
 	rep.finish(start)
 }
